@@ -1569,4 +1569,293 @@ theorem mkDevsFrom_indexed' (f : Nat → Report → Dev) (hf : ∀ i r, (f i r).
   | cons r rs ih => intro b; exact ⟨hf b r, ih (b + 1)⟩
 
 
+theorem writeLoop_wrapping_ok (now : Nat) (addrs : List Nat) (hnow : now < U64) (devs : List Dev)
+    (hrx : ∀ d ∈ devs, d.rxTime < U64) : ∃ ws, writeLoop .wrapping now addrs devs = (ws, .ok ()) := by
+  induction devs with
+  | nil => exact ⟨[], rfl⟩
+  | cons d ds ih =>
+    rcases ih (fun x hx => hrx x (List.mem_cons_of_mem _ hx)) with ⟨ws, hws⟩
+    unfold writeLoop
+    by_cases hdc : d.dc = true
+    · rw [if_pos hdc, offsetI64_wrapping d.rxTime now (hrx d (List.mem_cons_self ..)) hnow]
+      simp only [hws]
+      exact ⟨_, rfl⟩
+    · rw [if_neg hdc]; exact ⟨ws, hws⟩
+
+theorem good_latchOne (i : Nat) (r : Report) (ho : 1 ≤ r.openCount)
+    (ht : r.t0 < U32 ∧ r.t1 < U32 ∧ r.t2 < U32 ∧ r.t3 < U32) : Good (latchOne i r) := by
+  unfold latchOne
+  split
+  · exact good_devOfReport i r ho ht
+  · have hz : (0 : Nat) < U32 := by decide
+    have := good_devOfReport i { r with t0 := 0, t1 := 0, t2 := 0, t3 := 0 } ho ⟨hz, hz, hz, hz⟩
+    refine ⟨this.1, ?_⟩
+    exact ⟨hz, hz, hz, hz⟩
+
+
+
+theorem configureDc_panic_wrapping (now : Nat) (rs : List Report) (ws : List Write) (w : String)
+    (hopen : ∀ r ∈ rs, 1 ≤ r.openCount)
+    (htimes : ∀ r ∈ rs, r.t0 < U32 ∧ r.t1 < U32 ∧ r.t2 < U32 ∧ r.t3 < U32)
+    (hnow : now < U64) (hrx : ∀ r ∈ rs, r.rx < U64)
+    (h : configureDc .wrapping now rs = (ws, .panic w)) : w = "no free ports on parent" := by
+  unfold configureDc at h
+  cases ha : assignParentRelationships .wrapping (latch rs) with
+  | panic w' =>
+    rw [ha] at h
+    simp only [Prod.mk.injEq, Outcome.panic.injEq] at h
+    rw [← h.2]
+    refine assignLoop_panic_only_nofree .wrapping (latch rs) [] 0 w' (by simp) ?_
+      (mkDevsFrom_indexed' _ (fun i r => (latchOne_fields i r).1) rs 0) ha
+    intro d hd
+    rcases mkDevsFrom_mem _ _ _ d hd with ⟨i, r, hr, rfl⟩
+    exact good_latchOne i r (hopen r hr) (htimes r hr)
+  | err e => rw [ha] at h; simp at h
+  | ok out =>
+    rw [ha] at h
+    simp only at h
+    have hidk := assignLoop_idk .wrapping (latch rs) [] 0 out ha
+    simp only [List.nil_append] at hidk
+    cases hf : (out.find? (fun d => d.dc)).map (·.index) with
+    | none => rw [hf] at h; simp at h
+    | some i =>
+      rw [hf] at h
+      simp only at h
+      have hrx' : ∀ d ∈ out, d.rxTime < U64 := by
+        intro d hd
+        have : d.idk ∈ (latch rs).map Dev.idk := by rw [← hidk]; exact List.mem_map_of_mem hd
+        rcases List.mem_map.1 this with ⟨x, hx, hxe⟩
+        have hrxe : x.rxTime = d.rxTime := congrArg (fun t => t.2.2) hxe
+        rcases mkDevsFrom_mem _ _ _ x hx with ⟨j, r, hr, rfl⟩
+        rw [← hrxe]
+        unfold latchOne
+        split
+        · exact hrx r hr
+        · simp only; decide
+      rcases writeLoop_wrapping_ok now (rs.map (·.addr)) hnow out hrx' with ⟨ws', hws⟩
+      rw [hws] at h
+      simp at h
+
+
+
+def rootDc : Tree → Prop
+  | .none => False
+  | .node p _ _ _ => p.dc ≠ 0
+
+/-- What the fold needs to know about the upstream neighbour, per phase. -/
+def PhaseOk (ph : Nat) (S : Tree) (tinS acc parentLoop : Nat) (ref : Option Nat) : Prop :=
+  (ph = 0 → ref = none ∧ acc = 0 ∧ parentLoop = 0) ∧
+  (ph = 1 → ∃ tin0, ref = some tin0 ∧ tin0 ≤ tinS ∧ leave S tinS - tin0 ≤ U32_MAX ∧
+      (rootDc S → acc + (parentLoop - loopT S tinS) / 2 = tinS - tin0))
+
+theorem root_nondc (p : Params) (b tin : Nat) (o3 o1 o2 : Bool) (r3 r1 r2 : Nat) (hdc : p.dc = 0) :
+    (devOfReport b (mkReport (4096 + b) p tin o3 o1 o2 r3 r1 r2)).dc = false ∧
+    (devOfReport b (mkReport (4096 + b) p tin o3 o1 o2 r3 r1 r2)).delay = 0 ∧
+    (devOfReport b (mkReport (4096 + b) p tin o3 o1 o2 r3 r1 r2)).prop = 0 := by
+  refine ⟨by simp [mkReport, hdc, devOfReport], by simp [mkReport, hdc, devOfReport], ?_⟩
+  simp only [mkReport, hdc, if_true, devOfReport, Ports.ofNumbered, Dev.prop, Ports.totalPropTime, Ports.toList]
+  cases o3 <;> cases o1 <;> cases o2 <;> simp [spanOf]
+
+/-- One chain device followed by its only downstream subtree `c` (which starts at `tc`): generic step. -/
+theorem chain_truth_step (p : Params) (c3 c1 c2 c : Tree) (ph b bc tinS tc acc parentLoop : Nat) (ref : Option Nat)
+    (hj : NoJunction (.node p c3 c1 c2)) (hw : NoWrap (.node p c3 c1 c2) tinS)
+    (hcontig : DcContig (.node p c3 c1 c2) ph)
+    (hph : PhaseOk ph (.node p c3 c1 c2) tinS acc parentLoop ref)
+    (hdevs : devsOf (.node p c3 c1 c2) b tinS =
+      devOfReport b (mkReport (4096 + b) p tinS c3.isNode c1.isNode c2.isNode
+        (ret3 p c3 tinS) (ret1 p c3 c1 tinS) (ret2 p c3 c1 c2 tinS)) :: devsOf c bc tc)
+    (htruth : chainTruth (.node p c3 c1 c2) ref tinS =
+      (if p.dc = 0 then 0 else tinS - ref.getD tinS) ::
+        chainTruth c (if p.dc = 0 then ref else some (ref.getD tinS)) tc)
+    (ih : ∀ acc' pl' ref', 
+        (p.dc = 0 → acc' = acc ∧ pl' = 0 ∧ ref' = ref) →
+        (p.dc ≠ 0 → acc' = tinS - ref.getD tinS ∧ pl' = loopT (.node p c3 c1 c2) tinS ∧ ref' = some (ref.getD tinS)) →
+        chainFold pl' acc' (devsOf c bc tc) = chainTruth c ref' tc) :
+    chainFold parentLoop acc (devsOf (.node p c3 c1 c2) b tinS) = chainTruth (.node p c3 c1 c2) ref tinS := by
+  rw [hdevs, htruth]
+  by_cases hdc : p.dc = 0
+  · rcases root_nondc p b tinS c3.isNode c1.isNode c2.isNode (ret3 p c3 tinS) (ret1 p c3 c1 tinS) (ret2 p c3 c1 c2 tinS) hdc with ⟨h1, h2, h3⟩
+    simp only [chainFold, h1, h2, h3, hdc, if_true]
+    rw [ih acc 0 ref (fun _ => ⟨rfl, rfl, rfl⟩) (fun h => absurd hdc h)]
+    simp
+  · have hw' := ((noWrap_node p c3 c1 c2 tinS).1 hw).1 hdc
+    have hge := leave_ge (.node p c3 c1 c2) tinS
+    simp only [chainFold, root_dc p b tinS _ _ _ _ _ _ hdc, if_true, root_prop p c3 c1 c2 b tinS hdc hj hw', hdc, if_false]
+    have hval : Nat.min (acc + (parentLoop - loopT (.node p c3 c1 c2) tinS) / 2) U32_MAX = tinS - ref.getD tinS := by
+      have hc : DcContig (.node p c3 c1 c2) ph := hcontig
+      simp only [DcContig, hdc, if_false] at hc
+      have hph2 : ph = 0 ∨ ph = 1 := hc.1
+      rcases hph2 with rfl | rfl
+      · rcases hph.1 rfl with ⟨rfl, rfl, rfl⟩
+        simp
+      · rcases hph.2 rfl with ⟨tin0, rfl, h0, hfit, hacc⟩
+        rw [hacc hdc]
+        simp only [Option.getD_some]
+        exact Nat.min_eq_left (by omega)
+    rw [hval]
+    rw [ih (tinS - ref.getD tinS) _ (some (ref.getD tinS)) (fun h => absurd h hdc) (fun _ => ⟨rfl, rfl, rfl⟩)]
+
+
+theorem chainTruth_none (ref : Option Nat) (t : Nat) : chainTruth .none ref t = [] := rfl
+
+/-- The phase handed to the downstream neighbour. -/
+def nextPhase (p : Params) (ph : Nat) : Nat := if p.dc = 0 then (if ph = 0 then 0 else 2) else 1
+
+theorem contig_child (p : Params) (c3 c1 c2 : Tree) (ph : Nat) (h : DcContig (.node p c3 c1 c2) ph) :
+    DcContig c3 (nextPhase p ph) ∧ DcContig c1 (nextPhase p ph) ∧ DcContig c2 (nextPhase p ph) := by
+  unfold nextPhase
+  by_cases hdc : p.dc = 0
+  · simpa [DcContig, hdc] using h
+  · simp only [DcContig, hdc, if_false] at h ⊢
+    exact h.2
+
+/-- `PhaseOk` for the only child `c` of a chain device. -/
+theorem phaseOk_child (p : Params) (c3 c1 c2 c : Tree) (ph tinS tc acc parentLoop : Nat) (ref : Option Nat)
+    (hc : c.isNode = true) (hjc : NoJunction c)
+    (hcontig : DcContig (.node p c3 c1 c2) ph)
+    (hph : PhaseOk ph (.node p c3 c1 c2) tinS acc parentLoop ref)
+    (htc : tc = tinS + p.pd + c.link)
+    (hloop : loopT (.node p c3 c1 c2) tinS = leave c tc + c.link - tinS)
+    (hleave : leave c tc ≤ leave (.node p c3 c1 c2) tinS)
+    (hwrap : p.dc ≠ 0 → loopT (.node p c3 c1 c2) tinS < U32)
+    (hsym : p.pd = retDelay c)
+    (acc' pl' : Nat) (ref' : Option Nat)
+    (h0 : p.dc = 0 → acc' = acc ∧ pl' = 0 ∧ ref' = ref)
+    (h1 : p.dc ≠ 0 → acc' = tinS - ref.getD tinS ∧ pl' = loopT (.node p c3 c1 c2) tinS ∧ ref' = some (ref.getD tinS)) :
+    PhaseOk (nextPhase p ph) c tc acc' pl' ref' := by
+  have hU : U32 = 4294967296 := rfl
+  have hM : U32_MAX = 4294967295 := rfl
+  have hgec := leave_ge c tc
+  unfold nextPhase
+  by_cases hdc : p.dc = 0
+  · rcases h0 hdc with ⟨rfl, rfl, rfl⟩
+    simp only [hdc, if_true]
+    refine ⟨?_, ?_⟩
+    · intro h
+      have hp0 : ph = 0 := by
+        apply Classical.byContradiction; intro hne; simp [hne] at h
+      rcases hph.1 hp0 with ⟨r, a, _⟩
+      exact ⟨r, a, rfl⟩
+    · intro h
+      exfalso
+      by_cases hp0 : ph = 0 <;> simp [hp0] at h
+  · rcases h1 hdc with ⟨rfl, rfl, rfl⟩
+    simp only [hdc, if_false]
+    have hc' : (ph = 0 ∨ ph = 1) := by
+      simp only [DcContig, hdc, if_false] at hcontig; exact hcontig.1
+    refine ⟨fun h => absurd h (by decide), fun _ => ?_⟩
+    have hw := hwrap hdc
+    rcases hc' with rfl | rfl
+    · rcases hph.1 rfl with ⟨rfl, _, _⟩
+      simp only [Option.getD_none]
+      refine ⟨tinS, rfl, by omega, by omega, fun _ => ?_⟩
+      exact chain_child_hyp p c3 c1 c2 c tinS tc tinS hc hjc (Nat.le_refl _) htc hloop hsym
+    · rcases hph.2 rfl with ⟨tin0, rfl, h0', hfit, _⟩
+      simp only [Option.getD_some]
+      refine ⟨tin0, rfl, by omega, by omega, fun _ => ?_⟩
+      exact chain_child_hyp p c3 c1 c2 c tinS tc tin0 hc hjc h0' htc hloop hsym
+
+
+theorem loopT_lt (p : Params) (c3 c1 c2 : Tree) (tinS : Nat) (hdc : p.dc ≠ 0)
+    (hw : NoWrap (.node p c3 c1 c2) tinS) : loopT (.node p c3 c1 c2) tinS < U32 := by
+  have hw' := ((noWrap_node p c3 c1 c2 tinS).1 hw).1 hdc
+  rcases hw' with ⟨w3, w1, w2⟩
+  have hU : (0 : Nat) < U32 := by decide
+  simp only [loopT]
+  by_cases h3 : c3.isNode = true
+  · simp only [h3, if_true]; have := w3 h3; omega
+  · by_cases h1 : c1.isNode = true
+    · simp only [h3, h1, if_true]; have := w1 h1; simp; omega
+    · by_cases h2 : c2.isNode = true
+      · simp only [h3, h1, h2, if_true]; have := w2 h2; simp; omega
+      · simp [h3, h1, h2]; exact hU
+
+theorem chain_truth (S : Tree) : NoJunction S → Symmetric S →
+    ∀ (ph b tinS acc parentLoop : Nat) (ref : Option Nat), DcContig S ph → NoWrap S tinS →
+    PhaseOk ph S tinS acc parentLoop ref →
+    chainFold parentLoop acc (devsOf S b tinS) = chainTruth S ref tinS := by
+  induction S with
+  | none => intro _ _ ph b tinS acc pl ref _ _ _; simp [devsOf_none, chainFold, chainTruth_none]
+  | node p c3 c1 c2 ih3 ih1 ih2 =>
+    intro hj hsym ph b tinS acc pl ref hcontig hw hph
+    have hw' := (noWrap_node p c3 c1 c2 tinS).1 hw
+    rcases hw' with ⟨_, w3, w1, w2⟩
+    rcases hsym with ⟨s3, s1, s2, y3, y1, y2⟩
+    rcases contig_child p c3 c1 c2 ph hcontig with ⟨k3, k1, k2⟩
+    have hlc := leave_chain p c3 c1 c2 tinS hj
+    have hlt : p.dc ≠ 0 → loopT (.node p c3 c1 c2) tinS < U32 := fun h => loopT_lt p c3 c1 c2 tinS h hw
+    rcases noJunction_cases p c3 c1 c2 hj with ⟨rfl, rfl, rfl⟩ | ⟨h3, rfl, rfl⟩ | ⟨rfl, h1, rfl⟩ | ⟨rfl, rfl, h2⟩
+    · -- line end
+      apply chain_truth_step p .none .none .none .none ph b 0 tinS 0 acc pl ref hj hw hcontig hph
+      · rw [devsOf_node]; simp [devsOf_none]
+      · simp [chainTruth, chainTruth_none]
+      · intro acc' pl' ref' _ _; simp [devsOf_none, chainFold, chainTruth_none]
+    · -- downstream neighbour on port 3
+      have hloop : loopT (.node p c3 .none .none) tinS = leave c3 (tinS + p.pd + c3.link) + c3.link - tinS := by
+        simp [loopT, h3, ret3]
+      have hleave : leave c3 (tinS + p.pd + c3.link) ≤ leave (.node p c3 .none .none) tinS := by
+        rw [hlc, hloop]; have := leave_ge c3 (tinS + p.pd + c3.link); omega
+      apply chain_truth_step p c3 .none .none c3 ph b (b + 1) tinS (tinS + p.pd + c3.link) acc pl ref hj hw hcontig hph
+      · rw [devsOf_node]; simp [devsOf_none]
+      · simp [chainTruth, chainTruth_none]
+      · intro acc' pl' ref' a0 a1
+        exact ih3 hj.2.1 y3 _ (b + 1) _ acc' pl' ref' k3 w3
+          (phaseOk_child p c3 .none .none c3 ph tinS _ acc pl ref h3 hj.2.1 hcontig hph rfl hloop hleave hlt (s3 h3) acc' pl' ref' a0 a1)
+    · -- downstream neighbour on port 1
+      have hloop : loopT (.node p .none c1 .none) tinS = leave c1 (tinS + p.pd + c1.link) + c1.link - tinS := by
+        simp [loopT, h1, ret1, out3, isNode_none]
+      have hleave : leave c1 (tinS + p.pd + c1.link) ≤ leave (.node p .none c1 .none) tinS := by
+        rw [hlc, hloop]; have := leave_ge c1 (tinS + p.pd + c1.link); omega
+      have w1' : NoWrap c1 (tinS + p.pd + c1.link) := by simpa [out3, isNode_none] using w1
+      apply chain_truth_step p .none c1 .none c1 ph b (b + 1) tinS (tinS + p.pd + c1.link) acc pl ref hj hw hcontig hph
+      · rw [devsOf_node]; simp [devsOf_none, size_none, out3, isNode_none]
+      · simp [chainTruth, chainTruth_none, isNode_none]
+      · intro acc' pl' ref' a0 a1
+        exact ih1 hj.2.2.1 y1 _ (b + 1) _ acc' pl' ref' k1 w1'
+          (phaseOk_child p .none c1 .none c1 ph tinS _ acc pl ref h1 hj.2.2.1 hcontig hph rfl hloop hleave hlt (s1 h1) acc' pl' ref' a0 a1)
+    · -- downstream neighbour on port 2
+      have hloop : loopT (.node p .none .none c2) tinS = leave c2 (tinS + p.pd + c2.link) + c2.link - tinS := by
+        simp [loopT, h2, ret2, out1, out3, isNode_none]
+      have hleave : leave c2 (tinS + p.pd + c2.link) ≤ leave (.node p .none .none c2) tinS := by
+        rw [hlc, hloop]; have := leave_ge c2 (tinS + p.pd + c2.link); omega
+      have w2' : NoWrap c2 (tinS + p.pd + c2.link) := by simpa [out1, out3, isNode_none] using w2
+      apply chain_truth_step p .none .none c2 c2 ph b (b + 1) tinS (tinS + p.pd + c2.link) acc pl ref hj hw hcontig hph
+      · rw [devsOf_node]; simp [devsOf_none, size_none, out3, out1, isNode_none]
+      · simp [chainTruth, chainTruth_none, isNode_none]
+      · intro acc' pl' ref' a0 a1
+        exact ih2 hj.2.2.2 y2 _ (b + 1) _ acc' pl' ref' k2 w2'
+          (phaseOk_child p .none .none c2 c2 ph tinS _ acc pl ref h2 hj.2.2.2 hcontig hph rfl hloop hleave hlt (s2 h2) acc' pl' ref' a0 a1)
+
+
+/-- Pure chains whose DC-capable devices are contiguous in frame order, symmetric forwarding, no
+    intra-device wrap: every DC device is programmed with its true one-way delay from the first DC
+    device; devices without DC keep 0. -/
+theorem chain_exact_contig (m : Mode) (T : Tree) (tin : Nat) (h : T.isNode = true) (hj : NoJunction T)
+    (hcontig : DcContig T 0) (hsym : Symmetric T) (hw : NoWrap T tin) :
+    ∃ out, assignParentRelationships m (mkDevs (visit T 0 tin).1) = .ok out ∧
+      out.map (·.delay) = chainTruth T none tin := by
+  cases T with
+  | none => simp [Tree.isNode] at h
+  | node p c3 c1 c2 =>
+    have hv := chain_truth (.node p c3 c1 c2) hj hsym 0 0 tin 0 0 none hcontig hw
+      ⟨fun _ => ⟨rfl, rfl, rfl⟩, fun h => absurd h (by decide)⟩
+    have hchain := devsOf_chain (.node p c3 c1 c2) hj 0 tin hw
+    have hidx := devsOf_indexed (.node p c3 c1 c2) 0 tin
+    have hmk : mkDevs (visit (.node p c3 c1 c2) 0 tin).1 = devsOf (.node p c3 c1 c2) 0 tin := rfl
+    rw [hmk]
+    rw [devsOf_node] at hv hchain hidx ⊢
+    rcases chain_run m _ _ hidx hchain with ⟨out, ho, hd⟩
+    refine ⟨out, ho, ?_⟩
+    rw [hd, ← hv]
+    by_cases hdc : p.dc = 0
+    · rcases root_nondc p 0 tin c3.isNode c1.isNode c2.isNode (ret3 p c3 tin) (ret1 p c3 c1 tin) (ret2 p c3 c1 c2 tin) hdc with ⟨h1, h2, h3⟩
+      simp only [chainFold, h1, h2, h3]
+      simp
+    · simp only [chainFold, root_dc p 0 tin _ _ _ _ _ _ hdc, if_true]
+      have : Nat.min (0 + (0 - (devOfReport 0 (mkReport (4096 + 0) p tin c3.isNode c1.isNode c2.isNode
+          (ret3 p c3 tin) (ret1 p c3 c1 tin) (ret2 p c3 c1 c2 tin))).prop) / 2) U32_MAX = 0 := by simp
+      rw [this]
+      simp [devOfReport]
+
+
 end Ec.Dc
